@@ -616,6 +616,16 @@ func Go(point string, f func()) {
 	r.Spawn(name, f)
 }
 
+// StepsOf: how many scheduling steps the named goroutine has taken so far (-1: unknown).
+func (r *Run) StepsOf(name string) int {
+	r.mu.Lock()
+	defer r.mu.Unlock()
+	if g := r.byName[name]; g != nil {
+		return g.Steps
+	}
+	return -1
+}
+
 // Stalled: how many goroutines sit out a stall right now.
 func (r *Run) Stalled() int {
 	r.mu.Lock()
